@@ -1012,7 +1012,7 @@ impl<'a> KotoLexer<'a> {
     /// peek_n(1) returns the token that will appear after that, and so forth.
     pub fn peek(&mut self, n: usize) -> Option<&LexedToken> {
         let token_queue_len = self.token_queue.len();
-        let tokens_to_add = token_queue_len + 1 - n.max(token_queue_len);
+        let tokens_to_add = (n + 1).saturating_sub(token_queue_len);
 
         for _ in 0..tokens_to_add {
             if let Some(next) = self.next_token() {
